@@ -56,6 +56,9 @@ type ledgerModel struct {
 	cons      map[byte]*uint32  // nil pointer = tombstone
 	mem       map[byte]*uint32
 	consFresh map[byte]bool // key got its first overlay entry by the very last op (cancel-set shape)
+	memFresh  map[byte]bool // the same for the mempool overlay
+	// keys written or removed by the last commit
+	lastChanged []byte
 }
 
 func (m *ledgerModel) latest() map[byte]uint32 { return m.committed[len(m.committed)-1] }
@@ -154,6 +157,13 @@ func ledgerNext(t *rapid.T, m *ledgerModel, nKeys int, lastOp *LOp) LOp {
 		}
 		return ks
 	}
+	// what was just un-done is looked at, and what a commit changed is looked at through every view afterwards
+	if lastOp != nil && (lastOp.Op == "canceldel" || lastOp.Op == "cancelset") && pct(t, 60, "lookAfterCancel") {
+		return LOp{Op: "get", K: lastOp.K}
+	}
+	if lastOp != nil && lastOp.Op == "commit" && len(m.lastChanged) > 0 && pct(t, 55, "lookAfterCommit") {
+		return LOp{Op: pick(t, []string{"get", "get", "getf", "read"}, "lookOp"), K: pick(t, m.lastChanged, "lookKey")}
+	}
 	// removals come in bursts now and then (several keys leaving the tree in one commit)
 	if lastOp != nil && lastOp.Op == "delf" && pct(t, 45, "delBurst") {
 		if ks := visibleCons(); len(ks) > 0 {
@@ -162,7 +172,7 @@ func ledgerNext(t *rapid.T, m *ledgerModel, nKeys int, lastOp *LOp) LOp {
 	}
 	for {
 		switch weighted(t, map[string]int{"setf": 16, "getf": 14, "delf": 10, "set": 8, "get": 8, "del": 5, "read": 6, "iterall": 3, "iterupd": 3,
-			"commit": 8, "hist": 8, "reopen": 2, "cancelsetf": 3, "canceldelf": 2}, "op") {
+			"commit": 8, "hist": 8, "reopen": 2, "cancelsetf": 3, "canceldelf": 2, "cancelset": 3, "canceldel": 3}, "op") {
 		case "setf":
 			return LOp{Op: "setf", K: k, V: v}
 		case "getf":
@@ -206,6 +216,24 @@ func ledgerNext(t *rapid.T, m *ledgerModel, nKeys int, lastOp *LOp) LOp {
 			if lastOp != nil && lastOp.Op == "delf" && m.consFresh[lastOp.K] {
 				return LOp{Op: "canceldelf", K: lastOp.K}
 			}
+		case "cancelset":
+			// the shape of the one real caller (a withdrawal that fails after the reward was stored): directly after
+			// a mempool-side set of a key without an overlay entry
+			if lastOp != nil && lastOp.Op == "set" && m.memFresh[lastOp.K] {
+				return LOp{Op: "cancelset", K: lastOp.K}
+			}
+		case "canceldel":
+			// any key that is deleted in the mempool view - by a mempool-side delete or by the mirror of a consensus
+			// delete: the mempool view falls back to what is committed
+			var dead []byte
+			for i := 0; i < nKeys; i++ {
+				if pv, ok := m.mem[byte(i)]; ok && pv == nil {
+					dead = append(dead, byte(i))
+				}
+			}
+			if len(dead) > 0 {
+				return LOp{Op: "canceldel", K: pick(t, dead, "cancelDelKey")}
+			}
 		}
 	}
 }
@@ -217,6 +245,8 @@ func applyLedgerOp(p **ledgerPair, m *ledgerModel, op LOp, feats map[string]bool
 	wasFresh := func(k byte) bool { _, had := m.cons[k]; return !had }
 	fresh := map[byte]bool{}
 	defer func() { m.consFresh = fresh }()
+	mfresh := map[byte]bool{}
+	defer func() { m.memFresh = mfresh }()
 	for i := 0; i < nLedgers; i++ {
 		l := (*p).l[i]
 		switch op.Op {
@@ -258,6 +288,10 @@ func applyLedgerOp(p **ledgerPair, m *ledgerModel, op LOp, feats map[string]bool
 			if xerr != nil || it.V != want {
 				return fmt.Errorf("Del(%d) = %v,%v; the mempool view holds %d", op.K, it, xerr, want)
 			}
+		case "cancelset":
+			_ = l.CancelSet(keyOf(op.K))
+		case "canceldel":
+			_ = l.CancelDel(keyOf(op.K))
 		case "cancelsetf":
 			_ = l.CancelSetFinality(keyOf(op.K))
 		case "canceldelf":
@@ -356,6 +390,12 @@ func applyLedgerOp(p **ledgerPair, m *ledgerModel, op LOp, feats map[string]bool
 			}
 		}
 		m.committed = append(m.committed, next)
+		m.lastChanged = nil
+		for k := 0; k < 256; k++ {
+			if _, ok := m.cons[byte(k)]; ok {
+				m.lastChanged = append(m.lastChanged, byte(k))
+			}
+		}
 		m.cons, m.mem = map[byte]*uint32{}, map[byte]*uint32{}
 		if v0 != int64(len(m.committed)-1) || v1 != v0 {
 			return fmt.Errorf("Commit returned versions %d/%d, expected %d", v0, v1, len(m.committed)-1)
@@ -414,8 +454,17 @@ func applyLedgerOp(p **ledgerPair, m *ledgerModel, op LOp, feats map[string]bool
 		v := op.V
 		m.cons[op.K] = &v
 	case "set":
+		_, had := m.mem[op.K]
+		mfresh[op.K] = !had
 		v := op.V
 		m.mem[op.K] = &v
+	case "cancelset", "canceldel":
+		if pv, ok := m.mem[op.K]; op.Op == "canceldel" && ok && pv == nil {
+			if _, consDeleted := m.cons[op.K]; consDeleted && m.cons[op.K] == nil {
+				feats["mempool_undelete_of_a_key_the_block_deleted"] = true
+			}
+		}
+		delete(m.mem, op.K)
 	case "delf":
 		fresh[op.K] = wasFresh(op.K)
 		m.cons[op.K] = nil
@@ -490,7 +539,7 @@ func TestC18(t *testing.T) {
 			return nil, nil, err
 		}
 		defer func() { p.close() }()
-		m := &ledgerModel{committed: []map[byte]uint32{{}}, cons: map[byte]*uint32{}, mem: map[byte]*uint32{}, consFresh: map[byte]bool{}}
+		m := &ledgerModel{committed: []map[byte]uint32{{}}, cons: map[byte]*uint32{}, mem: map[byte]*uint32{}, consFresh: map[byte]bool{}, memFresh: map[byte]bool{}}
 		feats = map[string]bool{}
 		var trace []string
 		var last *LOp
